@@ -2301,7 +2301,14 @@ PREFIX (_translate) (region_type_t *region, int x, int y)
 
         if (pbox_out != pbox)
         {
-            if (region->data->numRects == 1)
+            if (region->data->numRects == 0)
+            {
+                region->extents.x2 = region->extents.x1;
+                region->extents.y2 = region->extents.y1;
+                FREE_DATA (region);
+                region->data = pixman_region_empty_data;
+	    }
+            else if (region->data->numRects == 1)
             {
                 region->extents = *PIXREGION_BOXPTR (region);
                 FREE_DATA (region);
